@@ -29,8 +29,9 @@ type c05Unit struct {
 }
 
 type C05Plan struct {
-	Units  []c05Unit `json:"units"`
-	Shrink []string  `json:"_shrink"`
+	Units  []c05Unit   `json:"units"`
+	Remote *RemotePlan `json:"remote,omitempty"` // the unit runs on another node (remote_test.go)
+	Shrink []string    `json:"_shrink"`
 }
 
 func genRunnerPlan(r *simnet.Rng, big bool) simwork.RunnerPlan {
@@ -60,6 +61,11 @@ func genRunnerPlan(r *simnet.Rng, big bool) simwork.RunnerPlan {
 func genC05(seed uint64, tier string) any {
 	r := simnet.NewRng(seed, "c05")
 	p := &C05Plan{Shrink: []string{"units"}}
+	if r.Bool(0.25) {
+		p.Remote = genRemote(r, "c05", tier)
+		p.Shrink = []string{"remote.faults", "remote.reads"}
+		return p
+	}
 	nu := r.Range(1, 3)
 	for u := 0; u < nu; u++ {
 		cu := c05Unit{Runner: genRunnerPlan(r, tier == "thorough")}
@@ -112,6 +118,10 @@ func c05Offset(o, total int) int {
 
 func runC05(t *testing.T, planAny any, res *simnet.Result) {
 	p := planAny.(*C05Plan)
+	if p.Remote != nil {
+		runRemote(t, p.Remote, "c05", res)
+		return
+	}
 	runDir := simwork.NewRunDir()
 	defer simwork.RemoveRunDir(runDir)
 	simnet.Bubble(t, func() {
